@@ -6,11 +6,11 @@ from . import c04_e2e as S
 
 TRUSTED = [
     "Coq 8.16.1 kernel (coqc, vm_compute); no axioms (every theorem: Closed under the global context)",
-    "translator vplib/translate/gen_window.py (std.sql.prql and std.prql through prqlc's own parser; scanners over the `window` arm of semantic/resolver/transforms.rs, translate_windowed / try_into_window_frame of sql/gen_expr.rs, Complexity / infer_complexity / can_materialize / get_requirements of sql/pq/anchor.rs; shape checks of flatten.rs and lowering.rs; fail closed) and vplib/translate/gen_split.py (is_split_required)",
+    "translator vplib/translate/gen_window.py (std.sql.prql and std.prql through prqlc's own parser; scanners over the `window` arm of semantic/resolver/transforms.rs incl. its empty-range rejection loop, translate_windowed / try_into_window_frame of sql/gen_expr.rs, Complexity / infer_complexity / can_materialize / get_requirements of sql/pq/anchor.rs, reorder of sql/pq/preprocess.rs; the save / overwrite / write-back of the partition and window fields in flatten.rs (every use of the two fields is accounted for) and shape checks of lowering.rs; fail closed) and vplib/translate/gen_split.py (is_split_required)",
     "SPECIFICATION of SQL window frames in coq/Model/Frame.v (sql_frame_segment: ROWS by position, RANGE by peers / key distance, the implicit frame of an OVER without frame clause; sframe_ok) and of where SQL admits a window function (Model/WindowFns.v sql_admits_window) -- hand-written, validated against SQLite by the end-to-end streams",
     "reference semantics coq/Model/Rel.v + Model/Value.v (C01) and its extension Model/Window.v (rank_dense, window columns over all 12 functions) = formalisation of the documented meaning (book: reference/stdlib/transforms/window.md)",
     "end-to-end oracle: window program builder vplib/rel/wingen.py (+ vplib/rel/prog.py), harness (prqlc::compile, prqlc::pl_to_rq, rusqlite bundled SQLite), comparison in vplib/rel/run.py",
-    "modelled, not verified: Model/Frame.v frame_of / emit_frame restate transforms.rs / gen_expr.rs (tied by the Gen obligations c04_gen_* and by the exhaustive correspondence stream); the resolver, flatten.rs (partition/sort/frame propagation), lowering.rs (Compute.window), the split/complexity search of anchor.rs and projection/expression generation are tied only by the RQ/OVER correspondence and the end-to-end oracle",
+    "modelled, not verified: Model/Frame.v frame_of / emit_frame restate transforms.rs / gen_expr.rs (tied by the Gen obligations c04_gen_* and by the exhaustive correspondence stream); scope_run restates the partition / frame bookkeeping of flatten.rs (tied by c04_gen_scope_policy and by the scope-corr stream over nested group / window / join programs); the rest of the resolver, the sort propagation of flatten.rs, lowering.rs (Compute.window), the split/complexity search of anchor.rs and projection/expression generation are tied only by the RQ/OVER correspondence and the end-to-end oracle",
 ]
 
 
@@ -62,11 +62,14 @@ def run():
         "instances: 4..7 rows; id unique non-null with gaps, insertion order shuffled; a, b in {NULL,-1,0,1,2,3,5} with duplicates; c non-null with duplicates and gaps; g in {NULL,1,2}",
         "determinism domain: either the sort keys end in the unique key id, or (ties / no sort) the function arguments only mention partition and sort key columns and the result is projected to those columns + the window columns and compared as a multiset",
         "range frames only over one ascending non-null integer sort key (the domain of Rel.v's FRange and of range_key_ok); descending or multi-key range frames and range frames without sort are outside the model",
-        "rows/range arguments with start > end: the book's meaning (empty segment) is the reference; the implementation's defaulting (whole partition) is modelled in Frame.v frame_of, tied by the correspondence stream and recorded as F52",
+        "rows/range arguments with start > end are rejected by the compiler (7b31f75; modelled in Frame.v frame_of = WEmptyRange, tied by the correspondence stream and by the empty-range end-to-end stream, which expects exactly that error); the spelling 0..-1 of the std.prql default is still accepted as \"argument not given\" (whole partition) where the book's inclusive bounds give the empty segment: the book is the reference, recorded as F54",
+        "the model's integers are unbounded (Z); c04_frame_arithmetic_in_range + c04_gen_bound_distance_total show that on i64 arguments neither `-rolling + 1` nor the PRECEDING distance leaves its machine type; i64::MIN cannot be written as a window bound in PRQL source (C12 covers hand-made RQ)",
+        "nested group / window bodies: only the partition and frame handed to each column (RQ Compute.window, OVER text) are compared (scope-corr); their execution is covered through the non-nested frames / placement streams; a group at the head of a group body is rejected by the compiler (F55)",
         "results are compared as multisets (sequence order is C03's clause; order sensitivity enters through take after a sort by a windowed value); column names are C05's clause",
         "sql.generic output is executed on SQLite",
     ]
-    ck.finish(TRUSTED, "frame-corr = exhaustive: 12 functions x sorted/unsorted x grouped/ungrouped x {rows,range} x bounds {open,-2..2}^2 (incl. empty ranges) + rolling -1..3 + expanding + argument combinations, model (kind,start,end) vs RQ Compute.window and model clause text vs OVER (...) text. "
+    ck.finish(TRUSTED, "frame-corr = exhaustive: 12 functions x sorted/unsorted x grouped/ungrouped x {rows,range} x bounds {open,-2..2}^2 (incl. empty ranges: model WEmptyRange vs the compile error of both entry points) + rolling -1..3 + expanding + argument combinations (which argument wins, rejection before expanding/rolling, the spelling 0..-1, i64 edges), model (kind,start,end) vs RQ Compute.window and model clause text vs OVER (...) text; the same over a relation literal without rows, executed. "
+              "scope-corr = 10 directed + random nestings (depth <= 4) of group / window / join-argument bodies: model scope_run (partition, frame per column) vs RQ Compute.window and vs the OVER text. "
               "End-to-end streams (each case = program x instance x target): frames = partition {none,g} x 9 sort modes x every frame x 3 of the 12 functions per program (quick: every frame under the modes id and c, a sample elsewhere; thorough: all, 4 function triples); first-last = first/last under every frame class; "
-              "placement = derive/select/filter/sort-by-value x context before (filter/take/group-aggregate = an earlier SELECT) and after (filter/take/aggregate/group-aggregate/derive/second window); empty-range = rows/range arguments with start > end; sort-key = a window function written directly as sort key; random = prog.Gen pipelines with window steps over all functions/frames. "
+              "placement = derive/select/filter/sort-by-value x context before (filter/take/group-aggregate = an earlier SELECT) and after (filter/take/aggregate/group-aggregate/derive/second window); empty-range = rows/range arguments with start > end (expected: the modelled compile error; 0..-1: F54); sort-key = a window function written directly as sort key; random = prog.Gen pipelines with window steps over all functions/frames. "
               "distinct = hash of (program, target, instance); non-trivial = non-empty result or a failure")
